@@ -375,8 +375,7 @@ Proof.
     destruct (encode_response_map e) as [rs| | |] eqn:Hp; cbn [bind] in Hb; try discriminate.
     destruct (encode_request_map e') as [rq'| | |] eqn:Hq'; cbn [bind] in Hb'; try discriminate.
     destruct (encode_response_map e') as [rs'| | |] eqn:Hp'; cbn [bind] in Hb'; try discriminate.
-    injection Hb as <-. injection Hb' as <-. rewrite <- !app_assoc in E.
-    apply app_inv_head in E.
+    injection Hb as Hb. injection Hb' as Hb'. subst bs bs'. cbn [app] in E. injection E as E. rewrite <- !app_assoc in E.
     destruct (request_map_inj e e' _ _ _ _ Hv Hs Hs' Hq Hq' E) as (Em & Eu & HP & Hd & Hd' & E1).
     destruct (response_map_inj e e' _ _ _ _ Hs Hs' Hp Hp' E1) as (Est & HP2 & Hd2 & Hd2' & E2).
     repeat split; try assumption; tauto.
@@ -392,5 +391,286 @@ Theorem headers_cbor_injective (e e' : exchange) (bs : bytes) :
 Proof.
   intros Hv Hs Hs' Hb Hb'.
   destruct (headers_cbor_prefix_free e e' bs bs [] [] Hv Hs Hs' Hb Hb' eq_refl) as (H1 & H2 & H3 & _).
-  repeat split; assumption.
+  split; [exact H1|split; [exact H2|exact H3]].
+Qed.
+
+(* ---- the signed fields -------------------------------------------------------- *)
+Record sfields := {
+  f_ver : version;
+  f_cert_sha : option bytes; f_validity : bytes; f_date : Z; f_expires : Z;
+  f_uri : bytes;
+  f_method : bytes;                    (* b1/b2 *)
+  f_req : list (bytes * bytes);        (* b1/b2: finite map lower-cased name -> joined value *)
+  f_status : Z;
+  f_resp : list (bytes * bytes) }.
+
+Definition fields_of (e : exchange) (cs : option bytes) (v : bytes) (d x : Z) : sfields :=
+  {| f_ver := e_ver e; f_cert_sha := cs; f_validity := v; f_date := d; f_expires := x;
+     f_uri := e_uri e;
+     f_method := if has_request (e_ver e) then e_method e else [];
+     f_req := if has_request (e_ver e) then hraw (e_reqh e) else [];
+     f_status := e_status e;
+     f_resp := hraw (e_resph e) |}.
+
+(* equality of signed fields; the two header maps are compared as finite maps *)
+Definition sf_equiv (a b : sfields) : Prop :=
+  f_ver a = f_ver b /\ f_cert_sha a = f_cert_sha b /\ f_validity a = f_validity b /\
+  f_date a = f_date b /\ f_expires a = f_expires b /\ f_uri a = f_uri b /\
+  f_method a = f_method b /\ Permutation (f_req a) (f_req b) /\
+  f_status a = f_status b /\ Permutation (f_resp a) (f_resp b).
+Definition sf_map (a : sfields) : Prop :=
+  NoDup (map fst (f_req a)) /\ NoDup (map fst (f_resp a)).
+
+Lemma sf_equiv_refl a : sf_equiv a a.
+Proof. unfold sf_equiv. repeat split; try reflexivity; apply Permutation_refl. Qed.
+Lemma sf_equiv_sym a b : sf_equiv a b -> sf_equiv b a.
+Proof.
+  unfold sf_equiv. intros (H1 & H2 & H3 & H4 & H5 & H6 & H7 & H8 & H9 & H10).
+  repeat split; try (symmetry; assumption); apply Permutation_sym; assumption.
+Qed.
+
+(* the size / range conditions on the signature parameters.
+   b1: CBOR heads carry the lengths, EncodeInt takes an int64.
+   b2/b3: cert-sha256 is written as the byte 32 followed by the bytes, with no
+   length of their own, so it must really be 32 bytes long; without cert-sha256
+   nothing is written at all (not the 0 byte of the draft), and the first
+   byte of the 8-byte validity-url length must not look like the 32: the
+   length must be below 2^56; date/expires are written modulo 2^64. *)
+Definition params_ok (ver : version) (cs : option bytes) (v : bytes) (d x : Z) : Prop :=
+  match ver with
+  | V1b1 =>
+      match cs with Some c => lenN c < two64 | None => True end /\
+      lenN v < two64 /\ i64 d /\ i64 x
+  | _ =>
+      match cs with Some c => lenN c = 32 | None => lenN v < 2 ^ 56 end /\
+      lenN v < two64 /\ (d < Z.of_N two64)%Z /\ (x < Z.of_N two64)%Z
+  end.
+
+Definition msg_prefix (ver : version) : bytes := repeat 32 64 ++ context_string ver ++ [0].
+
+(* ---- b2 / b3: the length-prefixed layout --------------------------------------- *)
+Lemma signed_message_b23 (e : exchange) (cs : option bytes) (v : bytes) (d x : Z) (m : bytes) :
+  e_ver e <> V1b1 -> signed_message e cs v d x = Ok m ->
+  exists hdr, encode_exchange_headers e = Ok hdr /\ (0 <= d)%Z /\ (0 <= x)%Z /\
+    m = msg_prefix (e_ver e) ++ (match cs with Some c => 32 :: c | None => [] end)
+        ++ be 8 (lenN v) ++ v ++ be 8 (Z.to_N d) ++ be 8 (Z.to_N x)
+        ++ be 8 (lenN (e_uri e)) ++ e_uri e ++ be 8 (lenN hdr) ++ hdr.
+Proof.
+  intros Hv H. unfold signed_message in H. fold (msg_prefix (e_ver e)) in H.
+  assert (H' :
+    (let* vl := be_encode (Z.of_N (lenN v)) 8 in
+     let* d0 := be_encode d 8 in
+     let* x0 := be_encode x 8 in
+     let* rl := be_encode (Z.of_N (lenN (e_uri e))) 8 in
+     let* hdr := encode_exchange_headers e in
+     let* hl := be_encode (Z.of_N (lenN hdr)) 8 in
+     Ok (msg_prefix (e_ver e) ++ (match cs with Some c => 32 :: c | None => [] end)
+         ++ vl ++ v ++ d0 ++ x0 ++ rl ++ e_uri e ++ hl ++ hdr)) = Ok m).
+  { destruct (e_ver e); [contradiction Hv; reflexivity|exact H|exact H]. }
+  clear H.
+  destruct (be_encode (Z.of_N (lenN v)) 8) as [vl| | |] eqn:E1; cbn [bind] in H'; try discriminate.
+  destruct (be_encode d 8) as [d0| | |] eqn:E2; cbn [bind] in H'; try discriminate.
+  destruct (be_encode x 8) as [x0| | |] eqn:E3; cbn [bind] in H'; try discriminate.
+  destruct (be_encode (Z.of_N (lenN (e_uri e))) 8) as [rl| | |] eqn:E4; cbn [bind] in H'; try discriminate.
+  destruct (encode_exchange_headers e) as [hdr| | |] eqn:E5; cbn [bind] in H'; try discriminate.
+  destruct (be_encode (Z.of_N (lenN hdr)) 8) as [hl| | |] eqn:E6; cbn [bind] in H'; try discriminate.
+  apply be_encode_8 in E1, E2, E3, E4, E6. rewrite N2Z.id in E1, E4, E6.
+  destruct E1 as [_ ->], E2 as [Hd ->], E3 as [Hx ->], E4 as [_ ->], E6 as [_ ->].
+  injection H' as <-. exists hdr. repeat split; assumption.
+Qed.
+
+Theorem signed_message_injective_b23 (e e' : exchange) (cs cs' : option bytes) (v v' : bytes)
+        (d x d' x' : Z) (m : bytes) :
+  e_ver e <> V1b1 -> e_ver e = e_ver e' ->
+  esized e -> esized e' -> params_ok (e_ver e) cs v d x -> params_ok (e_ver e') cs' v' d' x' ->
+  signed_message e cs v d x = Ok m -> signed_message e' cs' v' d' x' = Ok m ->
+  cs = cs' /\ v = v' /\ d = d' /\ x = x' /\ e_uri e = e_uri e' /\
+  hdr_equiv e e' /\ hdr_nodup e /\ hdr_nodup e'.
+Proof.
+  intros Hn1 Hv Hs Hs' Hp Hp' Hm Hm'.
+  assert (Hn1' : e_ver e' <> V1b1) by (rewrite <- Hv; exact Hn1).
+  destruct (signed_message_b23 _ _ _ _ _ _ Hn1 Hm) as (hdr & Hh & Hd0 & Hx0 & Em).
+  destruct (signed_message_b23 _ _ _ _ _ _ Hn1' Hm') as (hdr' & Hh' & Hd0' & Hx0' & Em').
+  rewrite Em in Em'. rewrite <- Hv in Em'. apply app_inv_head in Em'.
+  assert (Hp2 : match cs with Some c => lenN c = 32 | None => lenN v < 2 ^ 56 end /\
+                lenN v < two64 /\ (d < Z.of_N two64)%Z /\ (x < Z.of_N two64)%Z)
+    by (unfold params_ok in Hp; destruct (e_ver e); [contradiction Hn1; reflexivity|exact Hp|exact Hp]).
+  assert (Hp2' : match cs' with Some c => lenN c = 32 | None => lenN v' < 2 ^ 56 end /\
+                lenN v' < two64 /\ (d' < Z.of_N two64)%Z /\ (x' < Z.of_N two64)%Z)
+    by (unfold params_ok in Hp'; destruct (e_ver e'); [contradiction Hn1'; reflexivity|exact Hp'|exact Hp']).
+  clear Hp Hp'. destruct Hp2 as (Hc & Hvl & Hdl & Hxl). destruct Hp2' as (Hc' & Hvl' & Hdl' & Hxl').
+  destruct Hs as (Hu & Hs0). destruct Hs' as (Hu' & Hs0').
+  assert (Ecs : cs = cs' /\
+     be 8 (lenN v) ++ v ++ be 8 (Z.to_N d) ++ be 8 (Z.to_N x) ++ be 8 (lenN (e_uri e)) ++ e_uri e
+       ++ be 8 (lenN hdr) ++ hdr =
+     be 8 (lenN v') ++ v' ++ be 8 (Z.to_N d') ++ be 8 (Z.to_N x') ++ be 8 (lenN (e_uri e')) ++ e_uri e'
+       ++ be 8 (lenN hdr') ++ hdr').
+  { destruct cs as [c|]; destruct cs' as [c'|]; cbn [app] in Em'.
+    - injection Em' as Em'. destruct (app_eq_lenN _ _ _ _ (eq_trans Hc (eq_sym Hc')) Em') as [-> E2].
+      split; [reflexivity|exact E2].
+    - exfalso. destruct (be8_first _ Hc') as (t & Et). rewrite Et in Em'. discriminate.
+    - exfalso. destruct (be8_first _ Hc) as (t & Et). rewrite Et in Em'. discriminate.
+    - split; [reflexivity|exact Em']. }
+  destruct Ecs as [Ecs E]. clear Em'.
+  destruct (be8_inj _ _ _ _ Hvl Hvl' E) as [El E1]. clear E.
+  destruct (app_eq_lenN _ _ _ _ El E1) as [Ev E2]. clear E1.
+  assert (Hd1 : Z.to_N d < two64) by (unfold two64 in *; lia).
+  assert (Hd1' : Z.to_N d' < two64) by (unfold two64 in *; lia).
+  assert (Hx1 : Z.to_N x < two64) by (unfold two64 in *; lia).
+  assert (Hx1' : Z.to_N x' < two64) by (unfold two64 in *; lia).
+  destruct (be8_inj _ _ _ _ Hd1 Hd1' E2) as [Ed E3]. clear E2.
+  destruct (be8_inj _ _ _ _ Hx1 Hx1' E3) as [Ex E4]. clear E3.
+  destruct (be8_inj _ _ _ _ Hu Hu' E4) as [Eul E5]. clear E4.
+  destruct (app_eq_lenN _ _ _ _ Eul E5) as [Eu E6]. clear E5.
+  assert (Hl8 : List.length (be 8 (lenN hdr)) = List.length (be 8 (lenN hdr')))
+    by (rewrite !be_length; reflexivity).
+  destruct (app_eq_len _ _ _ _ Hl8 E6) as [_ Eh]. subst hdr'.
+  destruct (headers_cbor_injective e e' hdr Hv (conj Hu Hs0) (conj Hu' Hs0') Hh Hh') as (Q1 & Q2 & Q3).
+  refine (conj Ecs (conj Ev (conj _ (conj _ (conj Eu (conj Q1 (conj Q2 Q3))))))); lia.
+Qed.
+
+(* ---- b1: a canonical CBOR map -------------------------------------------------- *)
+Definition tk (k : string) : bytes := text_key k.
+
+Lemma b1_sort5 (c v d x h : bytes) :
+  sort_entries [(tk "cert-sha256", c); (tk "validity-url", v); (tk "date", d);
+                (tk "expires", x); (tk "headers", h)]
+  = [(tk "date", d); (tk "expires", x); (tk "headers", h); (tk "cert-sha256", c);
+     (tk "validity-url", v)].
+Proof. vm_compute. reflexivity. Qed.
+Lemma b1_sort4 (v d x h : bytes) :
+  sort_entries [(tk "validity-url", v); (tk "date", d); (tk "expires", x); (tk "headers", h)]
+  = [(tk "date", d); (tk "expires", x); (tk "headers", h); (tk "validity-url", v)].
+Proof. vm_compute. reflexivity. Qed.
+Lemma b1_nodup5 (c v d x h : bytes) :
+  adjacent_dup [(tk "date", d); (tk "expires", x); (tk "headers", h); (tk "cert-sha256", c);
+                (tk "validity-url", v)] = false.
+Proof. vm_compute. reflexivity. Qed.
+Lemma b1_nodup4 (v d x h : bytes) :
+  adjacent_dup [(tk "date", d); (tk "expires", x); (tk "headers", h); (tk "validity-url", v)] = false.
+Proof. vm_compute. reflexivity. Qed.
+
+Lemma enc_map_b1_some (c v d x h : bytes) :
+  enc_map [(tk "cert-sha256", c); (tk "validity-url", v); (tk "date", d);
+           (tk "expires", x); (tk "headers", h)]
+  = Ok (enc_map_header 5 ++ tk "date" ++ d ++ tk "expires" ++ x ++ tk "headers" ++ h
+        ++ tk "cert-sha256" ++ c ++ tk "validity-url" ++ v).
+Proof.
+  unfold enc_map. rewrite b1_sort5, b1_nodup5. cbn [flat_map fst snd].
+  rewrite <- !app_assoc, app_nil_r. reflexivity.
+Qed.
+Lemma enc_map_b1_none (v d x h : bytes) :
+  enc_map [(tk "validity-url", v); (tk "date", d); (tk "expires", x); (tk "headers", h)]
+  = Ok (enc_map_header 4 ++ tk "date" ++ d ++ tk "expires" ++ x ++ tk "headers" ++ h
+        ++ tk "validity-url" ++ v).
+Proof.
+  unfold enc_map. rewrite b1_sort4, b1_nodup4. cbn [flat_map fst snd].
+  rewrite <- !app_assoc, app_nil_r. reflexivity.
+Qed.
+
+Lemma signed_message_b1 (e : exchange) (cs : option bytes) (v : bytes) (d x : Z) (m : bytes) :
+  e_ver e = V1b1 -> signed_message e cs v d x = Ok m ->
+  exists hv, encode_exchange_headers e = Ok hv /\
+    m = msg_prefix V1b1 ++
+        match cs with
+        | Some c => enc_map_header 5 ++ tk "date" ++ enc_int d ++ tk "expires" ++ enc_int x
+                    ++ tk "headers" ++ hv ++ tk "cert-sha256" ++ enc_bytes c
+                    ++ tk "validity-url" ++ enc_bytes v
+        | None => enc_map_header 4 ++ tk "date" ++ enc_int d ++ tk "expires" ++ enc_int x
+                    ++ tk "headers" ++ hv ++ tk "validity-url" ++ enc_bytes v
+        end.
+Proof.
+  intros Hv H. unfold signed_message in H. rewrite Hv in H. fold (msg_prefix V1b1) in H.
+  destruct (encode_exchange_headers e) as [hv| | |]; cbn [bind] in H; try discriminate.
+  exists hv. split; [reflexivity|]. fold (tk "cert-sha256") (tk "validity-url") (tk "date")
+    (tk "expires") (tk "headers") in H.
+  destruct cs as [c|]; cbn [app] in H.
+  - rewrite enc_map_b1_some in H. cbn [bind] in H. injection H as <-. reflexivity.
+  - rewrite enc_map_b1_none in H. cbn [bind] in H. injection H as <-. reflexivity.
+Qed.
+
+Theorem signed_message_injective_b1 (e e' : exchange) (cs cs' : option bytes) (v v' : bytes)
+        (d x d' x' : Z) (m : bytes) :
+  e_ver e = V1b1 -> e_ver e' = V1b1 ->
+  esized e -> esized e' -> params_ok V1b1 cs v d x -> params_ok V1b1 cs' v' d' x' ->
+  signed_message e cs v d x = Ok m -> signed_message e' cs' v' d' x' = Ok m ->
+  cs = cs' /\ v = v' /\ d = d' /\ x = x' /\ e_uri e = e_uri e' /\
+  hdr_equiv e e' /\ hdr_nodup e /\ hdr_nodup e'.
+Proof.
+  intros Hv Hv' Hs Hs' (Hc & Hvl & Hd & Hx) (Hc' & Hvl' & Hd' & Hx') Hm Hm'.
+  destruct (signed_message_b1 _ _ _ _ _ _ Hv Hm) as (hv & Hh & Em).
+  destruct (signed_message_b1 _ _ _ _ _ _ Hv' Hm') as (hv' & Hh' & Em').
+  rewrite Em in Em'. apply app_inv_head in Em'.
+  assert (Hvv : e_ver e = e_ver e') by congruence.
+  assert (H45 : forall a b : bytes, enc_map_header 5 ++ a <> enc_map_header 4 ++ b).
+  { intros a b E. unfold enc_map_header in E.
+    destruct (typed_uint_inj MMap 5 4 a b mc_map) as [E1 _]; try exact E; try reflexivity. discriminate. }
+  destruct cs as [c|]; destruct cs' as [c'|];
+    try (exfalso; eapply H45; first [exact Em'|symmetry; exact Em']).
+  - apply app_inv_head in Em'. apply app_inv_head in Em'.
+    destruct (enc_int_inj _ _ _ _ Hd Hd' Em') as [Ed E1]. apply app_inv_head in E1.
+    destruct (enc_int_inj _ _ _ _ Hx Hx' E1) as [Ex E2]. apply app_inv_head in E2.
+    destruct (headers_cbor_prefix_free e e' _ _ _ _ Hvv Hs Hs' Hh Hh' E2) as (Q1 & Q2 & Q3 & E3).
+    apply app_inv_head in E3.
+    destruct (enc_bytes_inj _ _ _ _ Hc Hc' E3) as [Ec E4]. apply app_inv_head in E4.
+    apply (f_equal (fun l => l ++ [])) in E4.
+    destruct (enc_bytes_inj _ _ _ _ Hvl Hvl' E4) as [Ev _].
+    subst. refine (conj eq_refl (conj eq_refl (conj eq_refl (conj eq_refl (conj _ (conj Q1 (conj Q2 Q3))))))).
+    destruct Q1 as (_ & Qu & _). apply Qu. exact Hv.
+  - apply app_inv_head in Em'. apply app_inv_head in Em'.
+    destruct (enc_int_inj _ _ _ _ Hd Hd' Em') as [Ed E1]. apply app_inv_head in E1.
+    destruct (enc_int_inj _ _ _ _ Hx Hx' E1) as [Ex E2]. apply app_inv_head in E2.
+    destruct (headers_cbor_prefix_free e e' _ _ _ _ Hvv Hs Hs' Hh Hh' E2) as (Q1 & Q2 & Q3 & E3).
+    apply app_inv_head in E3.
+    apply (f_equal (fun l => l ++ [])) in E3.
+    destruct (enc_bytes_inj _ _ _ _ Hvl Hvl' E3) as [Ev _].
+    subst. refine (conj eq_refl (conj eq_refl (conj eq_refl (conj eq_refl (conj _ (conj Q1 (conj Q2 Q3))))))).
+    destruct Q1 as (_ & Qu & _). apply Qu. exact Hv.
+Qed.
+
+(* ---- the version is part of the message ---------------------------------------- *)
+Lemma signed_message_prefix (e : exchange) (cs : option bytes) (v : bytes) (d x : Z) (m : bytes) :
+  signed_message e cs v d x = Ok m -> exists rest, m = msg_prefix (e_ver e) ++ rest.
+Proof.
+  intros H. destruct (e_ver e) eqn:Hv.
+  - destruct (signed_message_b1 _ _ _ _ _ _ Hv H) as (hv & _ & ->). eexists. reflexivity.
+  - assert (Hn : e_ver e <> V1b1) by congruence.
+    destruct (signed_message_b23 _ _ _ _ _ _ Hn H) as (hdr & _ & _ & _ & ->). rewrite Hv. eexists. reflexivity.
+  - assert (Hn : e_ver e <> V1b1) by congruence.
+    destruct (signed_message_b23 _ _ _ _ _ _ Hn H) as (hdr & _ & _ & _ & ->). rewrite Hv. eexists. reflexivity.
+Qed.
+
+(* byte 81 of the message is the last character of the context string *)
+Theorem signed_message_version (e e' : exchange) (cs cs' : option bytes) (v v' : bytes)
+        (d x d' x' : Z) (m : bytes) :
+  signed_message e cs v d x = Ok m -> signed_message e' cs' v' d' x' = Ok m -> e_ver e = e_ver e'.
+Proof.
+  intros H H'. destruct (signed_message_prefix _ _ _ _ _ _ H) as (r & E).
+  destruct (signed_message_prefix _ _ _ _ _ _ H') as (r' & E'). rewrite E in E'.
+  apply (f_equal (fun l => nth 81 l 0)) in E'.
+  destruct (e_ver e); destruct (e_ver e'); try reflexivity; exfalso;
+    rewrite !app_nth1 in E' by (vm_compute; lia); vm_compute in E'; discriminate.
+Qed.
+
+(* ---- all versions ------------------------------------------------------------- *)
+Theorem signed_message_injective (e e' : exchange) (cs cs' : option bytes) (v v' : bytes)
+        (d x d' x' : Z) (m : bytes) :
+  esized e -> esized e' -> params_ok (e_ver e) cs v d x -> params_ok (e_ver e') cs' v' d' x' ->
+  signed_message e cs v d x = Ok m -> signed_message e' cs' v' d' x' = Ok m ->
+  sf_equiv (fields_of e cs v d x) (fields_of e' cs' v' d' x') /\
+  sf_map (fields_of e cs v d x) /\ sf_map (fields_of e' cs' v' d' x').
+Proof.
+  intros Hs Hs' Hp Hp' Hm Hm'.
+  pose proof (signed_message_version _ _ _ _ _ _ _ _ _ _ _ Hm Hm') as Hv.
+  assert (Q : cs = cs' /\ v = v' /\ d = d' /\ x = x' /\ e_uri e = e_uri e' /\
+              hdr_equiv e e' /\ hdr_nodup e /\ hdr_nodup e').
+  { destruct (e_ver e) eqn:Ev.
+    - rewrite <- Hv in Hp'. eapply signed_message_injective_b1; eauto.
+    - eapply signed_message_injective_b23; eauto; rewrite ?Ev; try congruence.
+    - eapply signed_message_injective_b23; eauto; rewrite ?Ev; try congruence. }
+  destruct Q as (-> & -> & -> & -> & Eu & (Q1 & _ & Q2 & Q3) & (N1 & N2) & (N1' & N2')).
+  unfold sf_equiv, sf_map, fields_of. cbn. rewrite <- Hv in *.
+  destruct (has_request (e_ver e)).
+  - destruct (Q1 eq_refl) as [Qm Qr]. repeat split; auto.
+  - repeat split; auto; constructor.
 Qed.
